@@ -231,11 +231,19 @@ impl FileHasher<'_> {
         log: &dyn Log,
     ) -> Result<FileHasher<'_>, Error> {
         let transform_command_str = transform.as_ref().map(|t| t.command_str.as_str());
-        let cache = HashCache::open_default(transform_command_str, algorithm)?;
+        // A cache that cannot be opened (e.g. left inconsistent by an interrupted run)
+        // must only cost time, not make grouping impossible.
+        let cache = match HashCache::open_default(transform_command_str, algorithm) {
+            Ok(cache) => Some(cache),
+            Err(e) => {
+                log.warn(format!("{e}. Proceeding without the hash cache."));
+                None
+            }
+        };
         Ok(FileHasher {
             algorithm,
             buf_len: 65536,
-            cache: Some(cache),
+            cache,
             transform,
             log,
         })
